@@ -1333,7 +1333,11 @@ def is_protocol_implementation(
         subtype_context=SubtypeContext(ignore_pos_arg_names=ignore_names),
         proper_subtype=proper_subtype,
     )
-    type_state.record_subtype_cache_entry(subtype_kind, left, right)
+    if not class_obj and not skip:
+        # Only a complete check of the *instance* against the protocol may be cached under
+        # (left, right): a class-object check (Type[C] / the constructor against a protocol) or a
+        # check that skipped members says nothing about whether instances of 'left' implement 'right'.
+        type_state.record_subtype_cache_entry(subtype_kind, left, right)
     return True
 
 
